@@ -251,6 +251,8 @@ class ExprBuilder:
             if isinstance(sl, ast.UnaryOp) and isinstance(sl.op, ast.Invert):
                 return base
             if isinstance(base, tuple) and base[0] == 'tuple' and isinstance(sl, ast.Constant) and isinstance(sl.value, int):
+                if not -len(base[1]) <= sl.value < len(base[1]):
+                    raise Undecided(f"element {sl.value} of a {len(base[1])}-tuple (declaration of the vector not understood)")
                 return base[1][sl.value]
             # constant index / slice of a computed value: an uninterpreted projection
             if isinstance(sl, ast.Constant) or (isinstance(sl, ast.Tuple) and all(isinstance(x, ast.Constant) for x in sl.elts)):
